@@ -10,6 +10,10 @@
 //!   hostile <variant> <delete>
 //!       a snapshot whose tree contains a hostile node name (crafted through the C14 hook),
 //!       restored into a directory surrounded by sentinels; reports every change outside.
+//!   hostile2 <kind 0=file 1=dir 2=symlink> <name 0..8> <spelling 0..4> <delete>
+//!       the same with the hostile name stored in an ESCAPED spelling (`\x2e\x2e`, `\u002e`,
+//!       `\U0000002f`, mixed literal/escaped): the stored string is one harmless-looking
+//!       component, `Node::name()` unescapes it to `..`, `/abs`, `a/b`, `.`
 //!   model <tokens...>
 //!       a small abstract case (same tokens as the extracted Coq model reads): source tree with
 //!       fixed-size chunks, destination state, options; reports outcome and final state.
@@ -258,7 +262,14 @@ fn derive_dest(r: &mut SplitMix, snap: &[Entry], w: &World, destkind: u64) -> (V
                         83..=87 => out.push(lit(e.path.clone(), b, e.mode ^ 0o111, e.mtime)),
                         88..=93 => {
                             // same size, every byte non-zero, other mtime (zero blobs of the snapshot meet old data)
-                            out.push(lit(e.path.clone(), vec![0xAA; b.len()], e.mode, other_m));
+                            // ... of the same size, or longer / shorter (then no blob can match and the whole file
+                            // is rewritten over the old bytes)
+                            let n = match r.below(3) {
+                                0 => b.len(),
+                                1 => b.len() + 1 + r.below(3000) as usize,
+                                _ => b.len() - b.len().min(1 + r.below(600) as usize),
+                            };
+                            out.push(lit(e.path.clone(), vec![0xAA; n], e.mode, other_m));
                         }
                         _ => out.push(lit(e.path.clone(), b, e.mode, other_m)),
                     }
@@ -339,6 +350,52 @@ fn derive_dest(r: &mut SplitMix, snap: &[Entry], w: &World, destkind: u64) -> (V
     (out, stale)
 }
 
+/// clusters: dir `x` (with children) and siblings `x-y`, `x.z`, `x y`, `x!`, `x0` as files or dirs,
+/// at the root, inside a random directory and inside a cluster's own `x`
+fn add_clusters(r: &mut SplitMix, entries: &mut Vec<Entry>, cluster_dirs: &mut Vec<PathBuf>) {
+    let mut parents: Vec<PathBuf> = vec![PathBuf::new()];
+    let dirs: Vec<PathBuf> = entries.iter().filter(|e| matches!(e.kind, Kind::Dir)).map(|e| e.path.clone()).collect();
+    if !dirs.is_empty() {
+        parents.push(dirs[r.below(dirs.len() as u64) as usize].clone());
+    }
+    let mut i = 0;
+    while i < parents.len() && i < 4 {
+        let par = parents[i].clone();
+        i += 1;
+        let base = ["x", "a", "e1"][r.below(3) as usize];
+        let x = par.join(base);
+        if entries.iter().any(|e| e.path == x) {
+            continue;
+        }
+        let m = (1_500_000_000 + r.below(100_000_000) as i64, r.below(1_000_000_000) as u32);
+        entries.push(Entry { path: x.clone(), kind: Kind::Dir, mode: 0o755, mtime: m });
+        for c in 0..r.below(3) {
+            entries.push(lit(x.join(format!("c{c}")), Content::Random { seed: r.next(), len: r.below(3000) as usize }.bytes(), 0o644, m));
+        }
+        cluster_dirs.push(x.clone());
+        if r.below(3) == 0 {
+            parents.push(x.clone()); // a nested cluster
+        }
+        for suf in ["-y", ".z", " y", "!", "0", "+w", ",v"] {
+            if r.below(3) == 0 {
+                continue;
+            }
+            let sp = par.join(format!("{base}{suf}"));
+            if entries.iter().any(|e| e.path == sp) {
+                continue;
+            }
+            if r.below(2) == 0 {
+                entries.push(Entry { path: sp.clone(), kind: Kind::Dir, mode: 0o755, mtime: m });
+                for c in 0..1 + r.below(2) {
+                    entries.push(lit(sp.join(format!("f{c}")), Content::Random { seed: r.next(), len: 1 + r.below(2000) as usize }.bytes(), 0o600, m));
+                }
+            } else {
+                entries.push(lit(sp, Content::Random { seed: r.next(), len: 1 + r.below(2000) as usize }.bytes(), 0o644, m));
+            }
+        }
+    }
+}
+
 fn kind_of(m: &BTreeMap<PathBuf, St>, p: &Path) -> String {
     m.get(p).map_or("-".to_string(), |s| s.kind.to_string())
 }
@@ -349,9 +406,16 @@ fn e2e_case(t: &mut Toks) -> Result<Value> {
     let destkind = t.u();
     let chunk = t.u();
     let hardlinks = t.u() == 1;
+    // optional 9th token: 1 = add clusters of sibling names around a directory `x`
+    // (`x-y`, `x.z`, `x y`, `x!` sort after `x/...` as paths but before it as strings; `x0` after both)
+    let shape = t.opt_s().is_some_and(|x| x == "1");
     let mut r = SplitMix(seed.wrapping_mul(0x9E37_79B9).wrapping_add(17));
-    let tp = TreeParams { max_entries: 18, max_depth: 3, max_file: 12_000, odd_names: r.below(4) == 0, symlinks: true, hardlinks };
-    let entries = gen_tree(&mut r, &tp);
+    let tp = TreeParams { max_entries: if shape { 8 } else { 18 }, max_depth: 3, max_file: 12_000, odd_names: r.below(4) == 0, symlinks: true, hardlinks };
+    let mut entries = gen_tree(&mut r, &tp);
+    let mut cluster_dirs: Vec<PathBuf> = Vec::new();
+    if shape {
+        add_clusters(&mut r, &mut entries, &mut cluster_dirs);
+    }
     let srcdir = tempfile::Builder::new().prefix("c14s").tempdir()?;
     materialize(srcdir.path(), &entries)?;
     let src = scan(srcdir.path(), None);
@@ -362,8 +426,18 @@ fn e2e_case(t: &mut Toks) -> Result<Value> {
     let (_repo, snap) = backup_dir(repo, srcdir.path(), "src", None)?;
     // destination
     let w = world()?;
-    let (dest_entries, stale) = derive_dest(&mut r, &entries, &w, destkind);
+    let (mut dest_entries, stale) = derive_dest(&mut r, &entries, &w, destkind);
     if destkind != 0 {
+        // an extra entry inside every cluster directory that still is a directory in the destination,
+        // sorting after all snapshot children (what makes a string-wise merge fall out of step)
+        for d in &cluster_dirs {
+            if dest_entries.iter().any(|e| &e.path == d && matches!(e.kind, Kind::Dir)) {
+                let p = d.join("zz_extra");
+                if !dest_entries.iter().any(|e| e.path == p) {
+                    dest_entries.push(lit(p, b"extra inside the cluster dir".to_vec(), 0o640, (1_450_000_000, 7)));
+                }
+            }
+        }
         materialize(&w.target, &dest_entries)?;
     }
     let pre = scan(&w.target, None);
@@ -528,10 +602,10 @@ fn has_zero_run(b: &[u8], n: usize) -> bool {
 
 // ------------------------------------------------------------------ hostile names
 
-/// Source: top (file), d/inner (file), lnk (symlink).  One node is renamed to a hostile raw name.
-fn hostile_case(t: &mut Toks) -> Result<Value> {
-    let variant = t.u();
-    let delete = t.u() == 1;
+/// Source: top (file), d/inner (file), lnk (symlink).  `edit` renames one node of the tree of `src`
+/// to a hostile stored name; the crafted tree is saved through the hook and restored into a
+/// directory surrounded by sentinels.
+fn hostile_run(delete: bool, edit: impl FnOnce(&mut Tree, &World) -> Result<(String, Vec<PathBuf>)>) -> Result<Value> {
     let srcdir = tempfile::Builder::new().prefix("c14s").tempdir()?;
     let m = (1_600_000_000, 5);
     let entries = vec![
@@ -546,66 +620,16 @@ fn hostile_case(t: &mut Toks) -> Result<Value> {
     let (repo, key) = init_repo(rec.clone(), None, &config(0), &repo_opts())?;
     let (repo, snap) = backup_dir(repo, srcdir.path(), "src", None)?;
     let w = world()?;
-    let abs_victim = w.w.join("abs_victim");
-    let abs_new = w.w.join("abs_created");
-    let esc = |s: &[u8]| -> String { String::from_utf8_lossy(s).into_owned() };
     // load the trees of the snapshot
     let repo = repo.to_indexed()?;
     let root: Tree = repo.get_tree(&snap.tree)?;
     let srcnode: Node = root.nodes.iter().find(|n| n.name == "src").cloned().ok_or_else(|| anyhow!("no src node"))?;
     let mut srctree: Tree = repo.get_tree(&srcnode.subtree.ok_or_else(|| anyhow!("no subtree"))?)?;
-    let find = |tr: &Tree, n: &str| tr.nodes.iter().position(|x| x.name == n).ok_or_else(|| anyhow!("node {n}"));
-    let (desc, expect_outside): (&str, Vec<PathBuf>) = match variant {
-        0 => {
-            let i = find(&srctree, "top")?;
-            srctree.nodes[i].name = "../escaped_file".into();
-            ("file node named ../escaped_file", vec!["outer/escaped_file".into()])
-        }
-        1 => {
-            let i = find(&srctree, "d")?;
-            srctree.nodes[i].name = "..".into();
-            ("dir node named .. with a file child", vec!["outer/inner".into()])
-        }
-        2 => {
-            let i = find(&srctree, "top")?;
-            srctree.nodes[i].name = esc(abs_new.as_os_str().as_bytes());
-            ("file node with an absolute name (new file)", vec!["abs_created".into()])
-        }
-        3 => {
-            let i = find(&srctree, "top")?;
-            srctree.nodes[i].name = esc(abs_victim.as_os_str().as_bytes());
-            ("file node with the absolute name of an existing file", vec!["abs_victim".into()])
-        }
-        4 => {
-            let i = find(&srctree, "top")?;
-            srctree.nodes[i].name = "../sentinel_file".into();
-            ("file node named ../sentinel_file (existing sentinel)", vec!["outer/sentinel_file".into()])
-        }
-        5 => {
-            let i = find(&srctree, "lnk")?;
-            srctree.nodes[i].name = "../escaped_link".into();
-            ("symlink node named ../escaped_link", vec!["outer/escaped_link".into()])
-        }
-        6 => {
-            let i = find(&srctree, "top")?;
-            srctree.nodes[i].name = "sub/deeper/file".into();
-            ("file node named sub/deeper/file (separators, stays inside)", vec![])
-        }
-        7 => {
-            let i = find(&srctree, "d")?;
-            srctree.nodes[i].name = esc(w.w.join("abs_victim_dir").as_os_str().as_bytes());
-            ("dir node with the absolute name of an existing outside dir", vec!["abs_victim_dir/inner".into()])
-        }
-        8 => {
-            let i = find(&srctree, "top")?;
-            srctree.nodes[i].name = "d/../../escaped_via_subdir".into();
-            ("file node named d/../../escaped_via_subdir", vec!["outer/escaped_via_subdir".into()])
-        }
-        _ => ("unchanged tree (control)", vec![]),
-    };
+    let (desc, expect_outside) = edit(&mut srctree, &w)?;
+    let stored: Vec<String> = srctree.nodes.iter().map(|n| n.name.clone()).collect();
     let ids = save_trees(&repo, std::slice::from_ref(&srctree))?;
     let mut roottree = root.clone();
-    let j = find(&roottree, "src")?;
+    let j = find_node(&roottree, "src")?;
     roottree.nodes[j].subtree = Some(ids[0]);
     let ids2 = save_trees(&repo, std::slice::from_ref(&roottree))?;
     let hsnap: SnapshotFile = snapshot_for_tree(&repo, ids2[0])?;
@@ -635,8 +659,132 @@ fn hostile_case(t: &mut Toks) -> Result<Value> {
         }
     }
     let inside: Vec<String> = scan(&w.target, None).keys().map(|p| lossy(p)).collect();
-    Ok(json!({"mode": "hostile", "variant": variant, "desc": desc, "delete": delete, "outcome": out.outcome, "msg": out.msg,
+    Ok(json!({"mode": "hostile", "desc": desc, "stored_names": stored, "delete": delete, "outcome": out.outcome, "msg": out.msg,
         "outside": outside, "expected_outside_if_unconfined": expect_outside.iter().map(|p| lossy(p)).collect::<Vec<_>>(), "inside": inside}))
+}
+
+fn find_node(tr: &Tree, n: &str) -> Result<usize> {
+    tr.nodes.iter().position(|x| x.name == n).ok_or_else(|| anyhow!("node {n}"))
+}
+
+fn hostile_case(t: &mut Toks) -> Result<Value> {
+    let variant = t.u();
+    let delete = t.u() == 1;
+    let mut v = hostile_run(delete, |srctree, w| {
+        let abs_victim = w.w.join("abs_victim");
+        let abs_new = w.w.join("abs_created");
+        let esc = |s: &[u8]| -> String { String::from_utf8_lossy(s).into_owned() };
+        let find = find_node;
+        let (desc, expect_outside): (&str, Vec<PathBuf>) = match variant {
+            0 => {
+                let i = find(srctree, "top")?;
+                srctree.nodes[i].name = "../escaped_file".into();
+                ("file node named ../escaped_file", vec!["outer/escaped_file".into()])
+            }
+            1 => {
+                let i = find(srctree, "d")?;
+                srctree.nodes[i].name = "..".into();
+                ("dir node named .. with a file child", vec!["outer/inner".into()])
+            }
+            2 => {
+                let i = find(srctree, "top")?;
+                srctree.nodes[i].name = esc(abs_new.as_os_str().as_bytes());
+                ("file node with an absolute name (new file)", vec!["abs_created".into()])
+            }
+            3 => {
+                let i = find(srctree, "top")?;
+                srctree.nodes[i].name = esc(abs_victim.as_os_str().as_bytes());
+                ("file node with the absolute name of an existing file", vec!["abs_victim".into()])
+            }
+            4 => {
+                let i = find(srctree, "top")?;
+                srctree.nodes[i].name = "../sentinel_file".into();
+                ("file node named ../sentinel_file (existing sentinel)", vec!["outer/sentinel_file".into()])
+            }
+            5 => {
+                let i = find(srctree, "lnk")?;
+                srctree.nodes[i].name = "../escaped_link".into();
+                ("symlink node named ../escaped_link", vec!["outer/escaped_link".into()])
+            }
+            6 => {
+                let i = find(srctree, "top")?;
+                srctree.nodes[i].name = "sub/deeper/file".into();
+                ("file node named sub/deeper/file (separators, stays inside)", vec![])
+            }
+            7 => {
+                let i = find(srctree, "d")?;
+                srctree.nodes[i].name = esc(w.w.join("abs_victim_dir").as_os_str().as_bytes());
+                ("dir node with the absolute name of an existing outside dir", vec!["abs_victim_dir/inner".into()])
+            }
+            8 => {
+                let i = find(srctree, "top")?;
+                srctree.nodes[i].name = "d/../../escaped_via_subdir".into();
+                ("file node named d/../../escaped_via_subdir", vec!["outer/escaped_via_subdir".into()])
+            }
+            _ => ("unchanged tree (control)", vec![]),
+        };
+        Ok((desc.to_string(), expect_outside))
+    })?;
+    v["variant"] = json!(variant);
+    v["hostile_name"] = json!(variant != 9);
+    Ok(v)
+}
+
+/// stored spelling of an unescaped hostile name: the bytes `.` and `/` written as escapes
+fn spell(name: &[u8], spelling: u64) -> String {
+    let mut out = String::new();
+    let mut k = 0;
+    for &b in name {
+        let hostile = b == b'.' || b == b'/';
+        let escape = hostile
+            && match spelling {
+                0 | 1 | 2 => true,
+                3 => {
+                    k += 1;
+                    k % 2 == 0 // every second hostile byte, the first stays literal
+                }
+                _ => b == b'/',
+            };
+        if escape {
+            match spelling {
+                1 => out.push_str(&format!("\\u{b:04x}")),
+                2 => out.push_str(&format!("\\U{b:08x}")),
+                _ => out.push_str(&format!("\\x{b:02x}")),
+            }
+        } else {
+            out.push(b as char);
+        }
+    }
+    out
+}
+
+fn hostile2_case(t: &mut Toks) -> Result<Value> {
+    let kind = t.u();
+    let name_id = t.u();
+    let spelling = t.u();
+    let delete = t.u() == 1;
+    let mut v = hostile_run(delete, |srctree, w| {
+        let node = ["top", "d", "lnk"][(kind % 3) as usize];
+        let wp = |x: &str| w.w.join(x).as_os_str().as_bytes().to_vec();
+        let (plain, expect): (Vec<u8>, Vec<PathBuf>) = match name_id {
+            0 => (b"..".to_vec(), if kind == 1 { vec!["outer/inner".into()] } else { vec![] }),
+            1 => (b"../escaped_x".to_vec(), vec!["outer/escaped_x".into()]),
+            2 => (wp("abs_created"), vec!["abs_created".into()]),
+            3 => (wp(if kind == 1 { "abs_victim_dir" } else { "abs_victim" }), vec![if kind == 1 { "abs_victim_dir/inner".into() } else { "abs_victim".into() }]),
+            4 => (b"sub/deeper".to_vec(), vec![]),
+            5 => (b".".to_vec(), vec![]),
+            6 => (b"d/../../escaped_via_subdir".to_vec(), vec!["outer/escaped_via_subdir".into()]),
+            7 => (b"../sentinel_file".to_vec(), vec!["outer/sentinel_file".into()]),
+            _ => (b"./../escaped_dot".to_vec(), vec!["outer/escaped_dot".into()]),
+        };
+        let stored = spell(&plain, spelling);
+        let i = find_node(srctree, node)?;
+        srctree.nodes[i].name = stored.clone();
+        Ok((format!("{} node, stored name `{}` = `{}` unescaped", ["file", "dir", "symlink"][(kind % 3) as usize], stored, String::from_utf8_lossy(&plain)), expect))
+    })?;
+    v["variant"] = json!(format!("{kind}/{name_id}/{spelling}"));
+    v["hostile_name"] = json!(true);
+    Ok(v)
 }
 
 // ------------------------------------------------------------------ model correspondence
@@ -646,8 +794,14 @@ fn hostile_case(t: &mut Toks) -> Result<Value> {
 //   names are numbers n -> "n%04d" (order preserved); mtime in seconds; mode octal digits as decimal number
 // output: outcome + final state of the destination in the same canonical form
 
+/// names of the model cases, sorted bytewise (order of numbers = order of names): a directory
+/// `x` and siblings whose next byte is below '/', plus one above it
+const NAME_TABLE: [&str; 8] = ["a", "x", "x y", "x!", "x-y", "x.z", "x0", "z"];
 fn name_of(n: u64) -> String {
-    format!("n{n:04}")
+    NAME_TABLE.get(n as usize).map_or_else(|| format!("zz{n:04}"), |s| (*s).to_string())
+}
+fn number_of(s: &str) -> String {
+    NAME_TABLE.iter().position(|x| *x == s).map_or_else(|| s.replace(' ', "_"), |i| i.to_string())
 }
 
 fn rd_entries(t: &mut Toks) -> Vec<Entry> {
@@ -684,7 +838,7 @@ fn rd_entries(t: &mut Toks) -> Vec<Entry> {
 fn canon_state(m: &BTreeMap<PathBuf, St>) -> String {
     let mut parts = Vec::new();
     for (p, s) in m {
-        let comps: Vec<String> = p.components().map(|c| c.as_os_str().to_string_lossy().trim_start_matches('n').trim_start_matches('0').to_string()).map(|s| if s.is_empty() { "0".into() } else { s }).collect();
+        let comps: Vec<String> = p.components().map(|c| number_of(&c.as_os_str().to_string_lossy())).collect();
         let path = comps.join("/");
         match s.kind {
             'f' => parts.push(format!("{path}:f:{}:{:o}:{}", s.mtime.0, s.mode, s.bytes.iter().map(|b| b.to_string()).collect::<Vec<_>>().join(","))),
@@ -733,6 +887,7 @@ fn main() {
         let r = catch_unwind(AssertUnwindSafe(|| match mode.as_str() {
             "e2e" => e2e_case(&mut t),
             "hostile" => hostile_case(&mut t),
+            "hostile2" => hostile2_case(&mut t),
             "model" => model_case(&mut t),
             _ => Err(anyhow!("unknown mode")),
         }));
